@@ -1,3 +1,4 @@
+import MorfuseModel.Sched.MachineWaitthreadHost
 import MorfuseModel.Sched.NotifyLemmas
 import MorfuseModel.Sched.MachineHostProps
 import MorfuseModel.Sched.MachineNotifyTraceHost
@@ -496,10 +497,8 @@ theorem C07_call_removed_source_destroys_waiters (fuel : Nat) {C W : List Nat} {
     registered only on channel 0 of `t` no longer `waiting` (re-timed by the `Unregister(0)` of `t`'s destructor, to be
     resumed by the next `ExecuteRunning`; or destroyed).  With `C05_machine_end_writes_slot`: the callee's `end v` wrote
     its result before this destructor ran.
-    *Missing for the full clause* ("the caller is released by the callee's destruction and by nothing else"): false for
-    the machine in general — the callee (or another child) may execute `local.p0 wait d` (`waitParent`: `Wait(d)` sent to
-    the caller, which re-times it) or `local.p0 notify 0`; both exist in the `hub` generator family or are expressible,
-    and excluding them needs a program-dependent pass over all functions (not done). -/
+    The converse ("released by nothing else than the end of the callee") is `C07_call_waitthread_only_release` below
+    (side condition `WTSafe`); the name keeps its `_partial` because this theorem alone is half of the clause. -/
 theorem C07_call_waitthread_partial :
     (∀ {s : State}, Reachable s → s.outOfFuel = true ∨
       ∀ c t, t ∈ Tbl.getD s.waitFor (c, 0) → s.alive t = true ∧
@@ -548,9 +547,9 @@ example : PlainWaitthread [[.mark 1, .waitthread 1, .mark 2], [.wait 5, .end_ (.
     `UnregisterAll`) and the instruction `local.p0 notify 0` — a script `o notify n` always addresses an alive *object* —
     which `PlainWaitthread` excludes; `CancelWaiting(c)`: `c`'s own `Stop()` — when `c` is destroyed, when it is re-timed
     by `Unregister(0)` (door 1), or when another thread sends it `Wait(d)` (`local.p0 wait d`), which `PlainWaitthread`
-    excludes.  *Missing*: the last sentence is an argument about callers, not a theorem: proving "`Stop()` of a `waiting`
-    thread is only reached from these three places" needs the program-dependent invariant pass (≈ the size of `jAll`);
-    the `hub` family is outside `PlainWaitthread` anyway. -/
+    excludes.  This is the ledger form (no invariant, any state); the statement about *who* performs these operations
+    — and that each of them ends the callee — is `C07_call_waitthread_only_release` below, which supersedes the
+    argument above (and shows that `local.p0 wait d` need not be excluded: it destroys the callee). -/
 theorem C07_call_waitthread_only_release_partial (s : State) (op : HostOp) (hne : op ≠ .reset) (c t : Nat)
     (h : c ∈ Tbl.getD s.notify (t, 0)) :
     c ∈ Tbl.getD (op.apply s).notify (t, 0) ∨
@@ -561,6 +560,94 @@ theorem C07_call_waitthread_only_release_partial (s : State) (op : HostOp) (hne 
   rcases nRun_keeps ops s.notify c t 0 h with h1 | ⟨o, ho, hrel⟩
   · left; rw [← hr]; exact h1
   · exact Or.inr ⟨ops, hr, o, ho, hrel⟩
+
+/-! ### `waitthread`: the caller proceeds only after the callee has ended
+
+`wtrAll` (`Sched/MachineWaitthread.lean`), lifted to the driver's commands by `HostOp.apply_wtr`.  Side condition on the
+program, decidable, `WTSafe p`: no `local.p0 notify 0` (a script-level notify on channel 0 of a thread), and the object
+literals of `notify` / `delete` are object ids (`< 100`).  Every generator family satisfies it (the `hub` family notifies
+its parent under names 1 and 2 only).  `local.p0 wait d` is **allowed**: it cancels the caller's registration, and the
+cancel loop then calls `StoppedNotify` on the callee, which deletes it — the callee has ended all the same. -/
+
+example : WTSafe [[.mark 1, .waitthread 1, .mark 2], [.wait 5, .end_ (.lit 7)]] ∧
+    WTSafe [[.thread 1], [.waitthread 2, .mark 1], [.waitParent 5, .notifyParent 2, .notify 50 3]] ∧
+    ¬ WTSafe [[.waitthread 1], [.notifyParent 0]] := by decide
+
+/-- **A `waitthread` caller proceeds only after the callee has ended.**  For every reachable state whose program is
+    `WTSafe`, every driver command `op` (compile, host call, frame, `Reset()`, … with all nested executions, cascades
+    and wake loops), every thread `t` and listener `c` registered on channel 0 of `t` (what `waitthread` does with the
+    caller): unless the command runs out of fuel,
+    * afterwards `c` is still registered on channel 0 of `t`, or `t` has no VM (the callee has ended: `end`, or
+      destroyed);
+    * if afterwards `c` has a record that is not `waiting` (it is `running` or re-timed), then `t` has no VM.
+    How the caller can be released at all (enumeration, each case covered by the proof): (1) the callee's destructor
+    (`Unregister(0)` / `UnregisterAll` of `t` — after `m_ScriptVM = nullptr`); (2) `CancelWaiting` of the caller — its
+    own destruction (`Reset()`, instance kill, `endon`, removal of an object it also waits on, being a waiter of a
+    removed source), a `waittill_timeout` event, `Wait(d)` sent to it by a child, a notify on another entry it holds:
+    in each of them `CancelWaitingSources` reports `t` as stopped and `t->StoppedNotify()` deletes the callee;
+    (3) script-level `Unregister(0)` on `t`: excluded by `WTSafe` (`local.p0 notify 0`; `o notify n` / `delete o`
+    address objects).  Together with `C07_call_waitthread_partial` (blocked ⇒ callee alive; the callee's destruction
+    releases the caller) this is the property's `waitthread` clause. -/
+theorem C07_call_waitthread_only_release {s : State} (h : Reachable s) (hp : WTSafe s.prog) (op : HostOp)
+    (hok : op.ok) (c t : Nat) (ht : 100 ≤ t) (hc : c ∈ Tbl.getD s.notify (t, 0)) :
+    (op.apply s).outOfFuel = true ∨
+      ((c ∈ Tbl.getD (op.apply s).notify (t, 0) ∨ (op.apply s).hasVM t = false) ∧
+       (∀ th', (op.apply s).th? c = some th' → th'.ts ≠ .waiting → (op.apply s).hasVM t = false)) := by
+  by_cases hreset : op = .reset
+  · subst hreset
+    exact Or.inr ⟨Or.inr rfl, fun _ _ _ => rfl⟩
+  rcases reachable_hinv h with ho | hi
+  · exact Or.inl (HostOp.apply_oof op hreset ho)
+  have hlt : t < s.nextTid := by
+    obtain ⟨a1, _⟩ := hi.inv.registered_waiting hc
+    rw [State.alive_thread _ (by simpa [State.isThread] using ht)] at a1
+    cases hf : thFind s.threads t with
+    | none => rw [aliveTh_false_of_none hf] at a1; cases a1
+    | some th => exact (hi.inv.n.range t th hf).2
+  have r := HostOp.apply_wtr ht s op hp hlt hc
+  rcases reachable_hinv (Reachable.step op h hok) with ho' | hi'
+  · exact Or.inl ho'
+  cases hof : (op.apply s).outOfFuel with
+  | true => exact Or.inl rfl
+  | false =>
+  right
+  have hended : Ended t (op.apply s) → (op.apply s).hasVM t = false := by
+    intro g
+    rcases g with g | g
+    · unfold State.hasVM
+      rw [State.th?_eq]
+      cases hf : thFind (op.apply s).threads t with
+      | none => rfl
+      | some th =>
+        simp only
+        cases hv : th.hasVM with
+        | false => rfl
+        | true =>
+          exfalso
+          cases hd : th.dead with
+          | false => exact g ⟨th, hf, hv, hd⟩
+          | true => have := ((hi'.inv.th t th hf).f2 hd).1; rw [hv] at this; cases this
+    · rw [hof] at g; cases g
+  refine ⟨r.imp_right hended, fun th' hf' hnw => ?_⟩
+  rcases r with r | r
+  · exfalso
+    obtain ⟨_, _, th, hf, hw, _⟩ := hi'.inv.registered_waiting r
+    rw [hf'] at hf; cases hf; exact hnw hw
+  · exact hended r
+
+/-- non-vacuity: after the host call the caller (100) is registered on channel 0 of the callee (101), which has its VM;
+    the frame 5 ms later ends the callee, and the caller has proceeded (`m2`) -/
+example :
+    let A := runOps {} [.script [[.mark 1, .waitthread 1, .mark 2], [.wait 5, .end_ (.lit 7)]] [0, 0], .call 0 []]
+    WTSafe A.prog ∧ Tbl.getD A.notify (101, 0) = [100] ∧ A.hasVM 101 = true ∧
+      (HostOp.apply A (.step 5)).outOfFuel = false ∧ (HostOp.apply A (.step 5)).hasVM 101 = false ∧
+      (HostOp.apply A (.step 5)).out = ["m2", "m1"] := by decide +kernel
+
+/-- … and the `local.p0 wait d` case: the callee (101) sends `Wait(5)` to its caller (100): the caller is re-timed and the
+    callee is destroyed on the spot (it never prints `m4`) -/
+example :
+    let B := runOps {} [.script [[.mark 1, .waitthread 1, .mark 2], [.mark 3, .waitParent 5, .mark 4, .wait 100]] [0, 0], .call 0 []]
+    B.hasVM 101 = false ∧ B.timer.elems = [(100, 5)] ∧ B.out = ["m3", "m1"] := by decide +kernel
 
 /-- non-vacuity: a thread that registered `endon` on `level` and then waits is destroyed by the notify of another
     thread, which proceeds (`m9`) -/
